@@ -273,6 +273,9 @@ type c40World struct {
 	trace             []string
 	excluded          bool // the last judged query hit a listed known finding
 	exclClass         string
+	lastIdx           common.Range[uint64] // IndexedBlocks as last sampled by indexed()
+	lastIdxOK         bool
+	everLimited       bool // some indexer instance of this scenario ran with a history limit
 	revertedSinceIdle bool   // a head switch removed canonical blocks since the indexer was last known idle
 	release           func() // non-nil while the harness withholds an indexer step (see valve)
 	everIdx           bool   // indexing was enabled and waited for at least once
@@ -461,6 +464,9 @@ func (w *c40World) start(history uint64, disabled bool) {
 		w.t.Fatalf("VERIF-HARNESS-BUG: NewFilterMaps: %v", err)
 	}
 	w.history, w.disabled = history, disabled
+	if history != 0 && !disabled {
+		w.everLimited = true
+	}
 	w.be.fm = fm
 	fm.Start()
 	w.tracef("indexer started at head %d/%x, history %d, disabled %v", h.num, h.hash[:4], history, disabled)
@@ -483,6 +489,7 @@ func (w *c40World) indexed() (common.Range[uint64], bool) {
 	if err != nil {
 		w.t.Fatalf("VERIF-INCONCLUSIVE C40: SyncLogIndex did not answer within %v: %v", c40QueryBound, err)
 	}
+	w.lastIdx, w.lastIdxOK = sr.IndexedBlocks, sr.IndexedView != nil
 	if sr.IndexedView != nil {
 		w.tracef("index covers %v (view head %d), valid %v", sr.IndexedBlocks, sr.IndexedView.HeadNumber(), sr.ValidBlocks)
 	} else {
@@ -780,13 +787,16 @@ const c40ClassRevertRace = "query-error-head-revert-race"
 // filterMapsRange.blocks becomes the empty range [B+1,B+1); the next head write calls
 // blocks.SetAfterLast(B), which lowers blocks.first to B (common.Range.SetAfterLast), so
 // block B is reported as fully indexed although its first log values lie in the removed
-// epoch, and indexed searches silently miss those logs. Signature tolerated only if listed:
-// history limit set, nothing surplus or reordered, every missing log in one single block which
-// is the first indexed block (or already below it).
+// epoch, and indexed searches silently miss those logs. The same lowering happens when an
+// index with an unindexed tail is reverted down to its first block (checkRevertRange /
+// getTempRange SetAfterLast(lastBlock) after a reorg at least as deep as the indexed range).
+// Signature tolerated only if listed: some indexer of this scenario ran with a history limit
+// (so the stored index can have an unindexed tail), nothing surplus or reordered, every
+// missing log in one single block which is the first indexed block (or already below it).
 const c40ClassTailPartial = "first-indexed-block-partially-unindexed"
 
 func (w *c40World) knownTailPartial(q *c40Query, got []*types.Log, want []c40Exp) bool {
-	if !vs.Known("TestVerifC40Queries", c40ClassTailPartial) || w.history == 0 || w.disabled || q.byHash || len(got) >= len(want) {
+	if !vs.Known("TestVerifC40Queries", c40ClassTailPartial) || !w.everLimited || w.disabled || q.byHash || len(got) >= len(want) {
 		return false
 	}
 	// got must be want minus a run of logs of one block
@@ -804,7 +814,13 @@ func (w *c40World) knownTailPartial(q *c40Query, got []*types.Log, want []c40Exp
 	if c40Diff(got[i:], want[i+miss:]) != "" {
 		return false
 	}
+	// the first indexed block as sampled most recently before the query (the head may have moved and
+	// the tail been re-indexed since) or as it is now
+	prev, prevOK := w.lastIdx, w.lastIdxOK
 	idx, ok := w.indexed()
+	if prevOK && !prev.IsEmpty() && prev.First() > 0 && blk.num == prev.First() {
+		return true
+	}
 	return ok && !idx.IsEmpty() && blk.num <= idx.First() && idx.First() > 0
 }
 
